@@ -8,6 +8,7 @@ import (
 	"fmt"
 	"io"
 	"log/slog"
+	"math"
 	"slices"
 	"strings"
 	"sync"
@@ -1116,6 +1117,35 @@ func BuildMiddlewareFromNIP11(nip11 *NIP11) Middleware {
 	}
 }
 
+// maxDurationSeconds is the largest number of whole seconds a time.Duration can hold.
+const maxDurationSeconds = int64(math.MaxInt64 / int64(time.Second))
+
+// untilCreatedAt is the time from now until the event's created_at, saturated to
+// the range of time.Duration.  It does not go through time.Unix, whose internal
+// representation wraps for timestamps near the ends of int64 and made an event
+// dated in the far future look ancient (and the other way round).
+func untilCreatedAt(ev *Event) time.Duration {
+	now := time.Now()
+	sec := now.Unix()
+	switch {
+	case ev.CreatedAt > sec+maxDurationSeconds:
+		return math.MaxInt64
+	case ev.CreatedAt < sec-maxDurationSeconds:
+		return math.MinInt64
+	default:
+		return time.Duration(ev.CreatedAt-sec)*time.Second - time.Duration(now.Nanosecond())
+	}
+}
+
+// sinceCreatedAt is the time elapsed since the event's created_at, saturated likewise.
+func sinceCreatedAt(ev *Event) time.Duration {
+	d := untilCreatedAt(ev)
+	if d == math.MinInt64 {
+		return math.MaxInt64
+	}
+	return -d
+}
+
 type EventCreatedAtMiddleware Middleware
 
 func NewEventCreatedAtMiddleware(
@@ -1152,7 +1182,7 @@ func (m *simpleEventCreatedAtMiddlewareBase) ServeNostrClientMsg(
 	msg ClientMsg,
 ) (<-chan ClientMsg, <-chan ServerMsg, error) {
 	if msg, ok := msg.(*ClientEventMsg); ok {
-		sub := time.Until(msg.Event.CreatedAtTime())
+		sub := untilCreatedAt(msg.Event)
 		if sub < m.from {
 			smsgCh := newClosedBufCh[ServerMsg](NewServerOKMsg(
 				msg.Event.ID,
@@ -1626,7 +1656,7 @@ func (m *simpleCreatedAtLowerLimitMiddlewareBase) ServeNostrClientMsg(
 	msg ClientMsg,
 ) (<-chan ClientMsg, <-chan ServerMsg, error) {
 	if msg, ok := msg.(*ClientEventMsg); ok {
-		if time.Since(msg.Event.CreatedAtTime()) > time.Duration(m.lower)*time.Second {
+		if sinceCreatedAt(msg.Event) > time.Duration(m.lower)*time.Second {
 			smsgCh := newClosedBufCh[ServerMsg](NewServerOKMsg(
 				msg.Event.ID,
 				false,
@@ -1681,7 +1711,7 @@ func (m *simpleCreatedAtUpperLimitMiddlewareBase) ServeNostrClientMsg(
 	msg ClientMsg,
 ) (<-chan ClientMsg, <-chan ServerMsg, error) {
 	if msg, ok := msg.(*ClientEventMsg); ok {
-		if time.Until(msg.Event.CreatedAtTime()) > time.Duration(m.upper)*time.Second {
+		if untilCreatedAt(msg.Event) > time.Duration(m.upper)*time.Second {
 			smsgCh := newClosedBufCh[ServerMsg](NewServerOKMsg(
 				msg.Event.ID,
 				false,
